@@ -1275,17 +1275,25 @@ Error JitAllocator::write(Span& span, WriteFunc write_fn, void* user_data, VirtM
     policy = JitAllocator_defaultPolicyForSpan(span);
   }
 
-  VirtMem::ProtectJitReadWriteScope write_scope(span.rx(), span.size(), policy);
-  ASMJIT_PROPAGATE(write_fn(span, user_data));
+  {
+    VirtMem::ProtectJitReadWriteScope write_scope(span.rx(), span.size(), policy);
+    ASMJIT_PROPAGATE(write_fn(span, user_data));
 
-  // Check whether span.truncate() has been called.
-  if (span.size() != size) {
+    // Check whether span.truncate() has been called.
+    if (span.size() == size) {
+      return Error::kOk;
+    }
+
     // OK, this is a bit awkward... However, shrink wants the original span and new_size, so we have to swap.
     std::swap(span._size, size);
-    return JitAllocatorImpl_shrink(static_cast<JitAllocatorPrivateImpl*>(_impl), span, size, true);
+
+    if (size != 0) {
+      return JitAllocatorImpl_shrink(static_cast<JitAllocatorPrivateImpl*>(_impl), span, size, true);
+    }
   }
 
-  return Error::kOk;
+  // Shrinking to zero keeps nothing - the span is released, like `shrink(span, 0)` does.
+  return shrink(span, 0);
 }
 
 // JitAllocator - Write Scope
